@@ -6,7 +6,8 @@ from ..roles import P_, param, INFO_TY, ENV_TY, AnchorMissing
 from ..mir import generic_path, proj
 from . import c09
 
-LP = "human(load(I:halo_pair::state::PAIR_INFO).liquidity_token)"
+def LP(ctx):
+    return "human(load(%s).liquidity_token)" % ctx.N.PAIR_INFO
 
 
 def share_calculator(ctx, pr):
@@ -47,15 +48,15 @@ def run(ctx):
     f = pr.provide_handler
     body = f.body
     info, env = param(f, INFO_TY), param(f, ENV_TY)
-    assets_i = common.param_index_of_type(f, r"^\[haloswap::asset::Asset; 2\]$")
+    assets_i = common.param_index_of_type(f, r"^\[%s; 2\]$" % ctx.N.rx("Asset"))
     recv_i = common.param_index_of_type(f, r"^std::option::Option<std::string::String>$")
 
     # ---- share calculator: decision table + numeric ------------------------------------------------------
     sup_i = common.param_index_of_type(calc, r"^cosmwasm_std::\S*Uint128$")
     dep_i = common.param_index_of_type(calc, r"^\[cosmwasm_std::\S*Uint128; 2\]$")
-    pools_i = common.param_index_of_type(calc, r"^\[haloswap::asset::Asset; 2\]$")
+    pools_i = common.param_index_of_type(calc, r"^\[%s; 2\]$" % ctx.N.rx("Asset"))
     cinfo_i = common.param_index_of_type(calc, r"^&'?\w* ?cosmwasm_std::\S*MessageInfo$")
-    pinfo_i = common.param_index_of_type(calc, r"^&'?\w* ?haloswap::asset::PairInfoRaw$")
+    pinfo_i = common.param_index_of_type(calc, r"^&'?\w* ?%s$" % ctx.N.rx("PairInfoRaw"))
     if None in (sup_i, dep_i, pools_i, cinfo_i, pinfo_i):
         n1.fail("C05.N1:anchor", calc.path, calc.span, "anchor-missing: share calculator parameters")
         return
@@ -181,22 +182,22 @@ def run(ctx):
 
     # ---- R7 calculator wiring and share mint -------------------------------------------------------------------
     cv = P.val_call(f, body, cbb)
-    qp = [(b, P.val_call(f, body, b)) for b, p, fr, t in P.calls(f) if p and generic_path(p).endswith("PairInfoRaw::query_pools")]
-    QP = "C:haloswap::asset::PairInfoRaw::query_pools@%s:bb%d" % (f.path, qp[0][0]) if len(qp) == 1 else None
+    qp = [(b, P.val_call(f, body, b)) for b, p, fr, t in P.calls(f) if ctx.N.is_fn(p, "query_pools")]
+    QP = "C:%s@%s:bb%d" % (ctx.N.cpath("query_pools"), f.path, qp[0][0]) if len(qp) == 1 else None
     if QP is None:
         r7.fail("C05.R7:pools", f.path, f.span, "expected one query_pools call in the provide handler")
         return
     qv = qp[0][1]
-    if set(ctx.roots(qv[4][0])) != {"load(I:halo_pair::state::PAIR_INFO)"} or set(ctx.roots(qv[4][3])) != {P_(f, env, ".contract.address")}:
+    if set(ctx.roots(qv[4][0])) != {"load(%s)" % ctx.N.PAIR_INFO} or set(ctx.roots(qv[4][3])) != {P_(f, env, ".contract.address")}:
         r7.fail("C05.R7:pools-origin", f.path, common.span_of_block_term(f, qp[0][0]), "reserves are not read from the pair's own PAIR_INFO / address")
     dep_roots = "|".join(sorted(ctx.roots(cv[4][dep_i])))
-    want = {cinfo_i: {P_(f, info)}, pinfo_i: {"load(I:halo_pair::state::PAIR_INFO)"}}
+    want = {cinfo_i: {P_(f, info)}, pinfo_i: {"load(%s)" % ctx.N.PAIR_INFO}}
     for i_, w_ in want.items():
         if set(ctx.roots(cv[4][i_])) != w_:
             r7.fail("C05.R7:calc-arg%d" % i_, f.path, common.span_of_block_term(f, cbb), "share calculator argument %d ⊢ %s, expected %s" % (i_, sorted(ctx.roots(cv[4][i_])), sorted(w_)))
     supr = set(ctx.roots(cv[4][sup_i]))
-    tis = [x for x in common.walk(cv[4][sup_i]) if x[0] == "call" and isinstance(x[3], str) and common.last_seg(x[3]) == "query_token_info"]
-    if len(supr) != 1 or not list(supr)[0].endswith(".total_supply") or len(tis) != 1 or set(ctx.roots(tis[0][4][1])) != {LP}:
+    tis = [x for x in common.walk(cv[4][sup_i]) if x[0] == "call" and ctx.N.is_fn(x[3], "q_token_info")]
+    if len(supr) != 1 or not list(supr)[0].endswith(".total_supply") or len(tis) != 1 or set(ctx.roots(tis[0][4][1])) != {LP(ctx)}:
         r7.fail("C05.R7:supply", f.path, common.span_of_block_term(f, cbb), "LP supply handed to the calculator ⊢ %s, expected TokenInfo(LP token).total_supply" % sorted(supr))
     else:
         r7.site("calculator(info ⊢ tx info, PAIR_INFO, S ⊢ TokenInfo(LP).total_supply, deposits, pools)")
@@ -266,7 +267,7 @@ def run(ctx):
             r6.fail("C05.R6:reserved-mint-count", f.path, f.span, "%d mints of the reserved unit, expected one" % len(reserved_mints))
         else:
             b, v, span, rc = reserved_mints[0]
-            if rc != {LP}:
+            if rc != {LP(ctx)}:
                 r6.fail("C05.R6:reserved-recipient", f.path, span.replace("!x", ""), "the reserved unit is minted to %s, expected the LP token's own address (unspendable)" % sorted(rc))
             elif not body.edge_dominates(e_edge, b):
                 r6.fail("C05.R6:reserved-region", f.path, span.replace("!x", ""), "the reserved unit is minted outside the empty-pool branch")
@@ -287,9 +288,8 @@ def run(ctx):
             for (b2, i2, cls, v2) in common.ok_exit_blocks(P, f):
                 if b2 in body.reachable_from(e_edge[1], cut_blocks=(b,)):
                     r6.fail("C05.R6:reserved-skippable", f.path, common.span_of_block_term(f, b2), "on the empty-pool branch a success exit is reachable without minting the reserved unit")
-            c = P.consts.get("haloswap::asset::LP_TOKEN_RESERVED_AMOUNT")
-            if c and c.get("int") == "1":
-                r6.site("LP_TOKEN_RESERVED_AMOUNT evaluates to 1")
+            if r6.status == "pass":
+                r6.site("the reserved amount evaluates to the constant 1 in both the mint and the subtraction")
     # ---- R3 per-asset deposit handling ------------------------------------------------------------------------------------
     lps = [l for l in common.loops(P, f) if l["is_loop"]]
     tf = [(b, v, span) for (fn, b, i, adt, var, v, span) in common.message_sites(P) if fn.path == f.path and common.adt_short(adt) == "Cw20ExecuteMsg" and var == "TransferFrom"]
